@@ -331,7 +331,8 @@ static int opsMode(int argc, char** argv)
     auto grid2 = std::make_unique<PolarGrid>(rad, ang, split);
     auto lc2   = std::make_unique<LevelCache>(*grid2, coeff, geom, true, true);
     Level L2(0, std::move(grid2), std::move(lc2), ExtrapolationType::NONE, false);
-    const bool refinable = nr % 2 == 1 && nt % 4 == 0 && nc >= 3; // the extrapolated smoothers need a grid that has a coarse grid
+    const bool smoothable = nc >= 2 && nr - nc >= 3; // the smoothers need two circles and three radial nodes per line
+    const bool refinable = smoothable && nr % 2 == 1 && nt % 4 == 0 && nc >= 3; // the extrapolated smoothers need a grid that has a coarse grid
     Vector<double> x(N), rhs(N), result(N), temp(N);
     std::mt19937 gen(3);
     std::uniform_real_distribution<double> U(-1, 1);
@@ -353,10 +354,12 @@ static int opsMode(int argc, char** argv)
     // the assembly regions of every operator (matrix builds with their colour phases) are recorded as well
     fprintf(g_out, "{\"mark\":\"assembly\",\"reg\":%ld}\n", g_region.load());
     L.initializeResidual(geom, coeff, dir, threads, StencilDistributionMethod::CPU_GIVE);
-    L.initializeSmoothing(geom, coeff, dir, threads, StencilDistributionMethod::CPU_TAKE);
+    if (smoothable)
+        L.initializeSmoothing(geom, coeff, dir, threads, StencilDistributionMethod::CPU_TAKE);
     L.initializeDirectSolver(geom, coeff, dir, threads, StencilDistributionMethod::CPU_GIVE);
     L2.initializeResidual(geom, coeff, dir, threads, StencilDistributionMethod::CPU_TAKE);
-    L2.initializeSmoothing(geom, coeff, dir, threads, StencilDistributionMethod::CPU_GIVE);
+    if (smoothable)
+        L2.initializeSmoothing(geom, coeff, dir, threads, StencilDistributionMethod::CPU_GIVE);
     L2.initializeDirectSolver(geom, coeff, dir, threads, StencilDistributionMethod::CPU_TAKE);
     if (refinable) {
         L.initializeExtrapolatedSmoothing(geom, coeff, dir, threads, StencilDistributionMethod::CPU_TAKE);
@@ -366,9 +369,11 @@ static int opsMode(int argc, char** argv)
     fprintf(g_out, "{\"mark\":\"residualGive\",\"reg\":%ld}\n", g_region.load());
     L.computeResidual(result, rhs, x);
     dumpAll();
-    fprintf(g_out, "{\"mark\":\"smootherTake\",\"reg\":%ld}\n", g_region.load());
-    L.smoothing(x, rhs, temp);
-    dumpAll();
+    if (smoothable) {
+        fprintf(g_out, "{\"mark\":\"smootherTake\",\"reg\":%ld}\n", g_region.load());
+        L.smoothing(x, rhs, temp);
+        dumpAll();
+    }
     if (refinable) {
         fprintf(g_out, "{\"mark\":\"xsmootherTake\",\"reg\":%ld}\n", g_region.load());
         L.extrapolatedSmoothing(x, rhs, temp);
@@ -377,9 +382,11 @@ static int opsMode(int argc, char** argv)
     fprintf(g_out, "{\"mark\":\"residualTake\",\"reg\":%ld}\n", g_region.load());
     L2.computeResidual(result, rhs, x);
     dumpAll();
-    fprintf(g_out, "{\"mark\":\"smootherGive\",\"reg\":%ld}\n", g_region.load());
-    L2.smoothing(x, rhs, temp);
-    dumpAll();
+    if (smoothable) {
+        fprintf(g_out, "{\"mark\":\"smootherGive\",\"reg\":%ld}\n", g_region.load());
+        L2.smoothing(x, rhs, temp);
+        dumpAll();
+    }
     if (refinable) {
         fprintf(g_out, "{\"mark\":\"xsmootherGive\",\"reg\":%ld}\n", g_region.load());
         L2.extrapolatedSmoothing(x, rhs, temp);
